@@ -86,8 +86,11 @@ theorem pushObj_obj_attached (rc : RxCfg) (o : ObjCfg) (st : OState) (rx : ORx) 
   generalize (if (!rx.otiKnown && o.inbandFti) = true then ({ rx with otiKnown := true } : ORx) else rx) = rx' at h e1
   by_cases hk : (!rx'.otiKnown) = true
   · rw [if_pos hk] at h
-    have := finish_obj_some o st _ x h
-    rw [this]; exact e1
+    split at h
+    · have := finish_obj_some o st _ x h
+      rw [this]; exact e1
+    · have := finish_obj_some o st _ x h
+      rw [this]; exact e1
   · rw [if_neg hk] at h
     have := finish_obj_some o st _ x h
     rw [this, pushSym_attached]; exact e1
